@@ -83,6 +83,10 @@ def run(chk, replay=None):
                 chk.violation("replay-not-a-dataflow-solution", f"episode {e}: check_replay (hypothesis of C01_replay_unique) rejects rex's Timings / ring sizes: "
                               "some executed row does not take its state or a window payload from the scheduled producer, or a vertex is executed twice", case)
             else: chk.feat("check_replay-accepts")
+            # the remaining decidable hypotheses of C01_replay_reproduces_async_export / C08_buffer_sufficient on rex's own Timings (informative: where
+            # they do not hold the theorem is silent and the verdict rests on check_replay + the row comparison alone)
+            chk.feat("sched_ok-accepts" if m.get("schedok") == 1 else "sched_ok-rejects")
+            chk.feat("extra_ok-accepts" if m.get("extraok") == 1 else "extra_ok-rejects")
             d = cl.compare_rows(j["cfg"], rr["episodes"][e], m)
             if d: chk.broke("correspondence:M3-vs-Graph", f"{d} | job={j['id']}")
     chk.extra["rule"] = ("lattice graphs with probe nodes (all connection policies) are run for 1-3 episodes of different lengths by the threaded runtime with "
